@@ -247,8 +247,8 @@ func init() {
 	}, propMeta{Technique: "must-pass-through over the SSA CFG + agreement of string constants + agreement of the two canonical orders (accessor returns the stored key; sort dominates every return)", LevelText: "all snapshot call sites and all round comparisons are enumerated and decided.", LevelNote: "snapshot/restore functions resolved by role (writer/reader of the package-level map[FrameKey]T)", DesignRef: "4 PAIR, REG-rounds; 5 C15"})
 
 	claim("C16", PropertySpec{
-		Engines: []EngineSpec{rules("PAIR", "PAIR-byvalue", "PAIR-ctx"), rules("ORD", "ORD-flat", "ORD-flat-use", "ORD-edge"), rules("REC", "REC-key")},
-		Clause: "Visibility state cannot outlive its class body: the evaluator interface takes the Context by value, and every function that sets flags through a *Context parameter resets them in a defer or is called only with the address of the caller's own by-value context; and the registry used to decide 'parent is a Builtin-frame class' keeps the frame (ORD-flat); the ancestor walks (superclass chains of any depth, mixins) keep a visited set keyed by the full node, so no ancestor is pruned because a same-named class was seen (REC-key); the elements of the inheritance lists are edges that carry their kind (include / extend) and are compared with a node identity field by field only — never as whole values, which would leave mixins out of hierarchy tests such as the protected check (ORD-edge).",
+		Engines: []EngineSpec{rules("PAIR", "PAIR-byvalue", "PAIR-ctx", "PAIR-bal"), rules("ORD", "ORD-flat", "ORD-flat-use", "ORD-edge"), rules("REC", "REC-key")},
+		Clause: "Visibility state cannot outlive its class body: the evaluator interface takes the Context by value, and every function that sets flags through a *Context parameter resets them in a defer or is called only with the address of the caller's own by-value context; a flag of the caller's context is reset only by a function that set it itself or that saves and restores the caller's value (PAIR-bal); and the registry used to decide 'parent is a Builtin-frame class' keeps the frame (ORD-flat); the ancestor walks (superclass chains of any depth, mixins) keep a visited set keyed by the full node, so no ancestor is pruned because a same-named class was seen (REC-key); the elements of the inheritance lists are edges that carry their kind (include / extend) and are compared with a node identity field by field only — never as whole values, which would leave mixins out of hierarchy tests such as the protected check (ORD-edge).",
 		NotCovered: "resolution order, new/initialize, what the protected check concludes",
 	}, propMeta{Technique: "typestate-style flag pairing over go/ssa + call-graph check of pointer provenance + whole-value-use analysis of inheritance edges + visited-set key type rule", LevelText: "all functions with a *Context parameter and all their call sites are enumerated and decided.", LevelNote: "trusts the VTA call graph for callers", DesignRef: "4 PAIR; 5 C16"})
 
@@ -283,14 +283,14 @@ func init() {
 	}, propMeta{Technique: "constant folding of straight-line factory functions into constructor normal forms (go/ssa) + agreement rules over the type-checked AST of the loader", LevelText: "all 13 alias rows are enumerated and decided; a factory that is not straight-line is undecided, which fails the check.", LevelNote: "labels, table values and factories are resolved from the type-name switch and the package-level initialisers", DesignRef: "5 C21"})
 
 	claim("C22", PropertySpec{
-		Engines: []EngineSpec{rules("ORD", "ORD-row")},
-		Clause: "In every evaluator that records a definition row, the row is captured in the entry block before any token is read, and — for a helper — no token is read on any static call path between the generic dispatcher's hand-off and the helper's entry (so multi-line definitions are recorded on the row of their first token).",
-		NotCovered: "hover content, visibility tags, the file name (C18)",
+		Engines: []EngineSpec{rules("ORD", "ORD-row"), rules("PAIR", "PAIR-bal")},
+		Clause: "A visibility flag of the caller's context is reset only by a function that has set it itself on every path to the reset, or that keeps the caller's value and restores it in a deferred closure (so a `class << self` block neither inherits nor disturbs the section around it, and definitions are tagged with the visibility in effect). In every evaluator that records a definition row, the row is captured in the entry block before any token is read, and — for a helper — no token is read on any static call path between the generic dispatcher's hand-off and the helper's entry (so multi-line definitions are recorded on the row of their first token).",
+		NotCovered: "hover content, which visibility a keyword selects, the file name (C18)",
 	}, propMeta{Technique: "ordering rule over the SSA entry block with call-graph 'reads tokens' summaries, extended over static call chains back to the registry dispatcher", LevelText: "all 8 definition-row captures are enumerated and decided.", LevelNote: "row field anchored by name (ErrorRow); comparisons and restores are excluded by def-use", DesignRef: "4 ORD-row; 5 C22"})
 
 	claim("C24", PropertySpec{
-		Engines: []EngineSpec{rules("ORD", "ORD-spec", "ORD-key")},
-		Clause: "Functions that evaluate on a by-value copy of the parser (condition look-ahead) cannot reach a store to an append-only global log (call points, callee points, special comments, define-info and signature articles) unless the store is dominated by a test of a parser field the look-ahead sets on its copy. Every frame-qualified key (frame accessor followed by class accessor in one concatenation — the call-point and callee-point keys and the navigator's look-up keys among them) reads both halves from the same object, so that the recorder and the navigator name the same method.",
+		Engines: []EngineSpec{rules("ORD", "ORD-spec", "ORD-key", "ORD-own")},
+		Clause: "Functions that evaluate on a by-value copy of the parser (condition look-ahead) cannot reach a store to an append-only global log (call points, callee points, special comments, define-info and signature articles) unless the store is dominated by a test of a parser field the look-ahead sets on its copy. Every frame-qualified key (frame accessor followed by class accessor in one concatenation — the call-point and callee-point keys and the navigator's look-up keys among them) reads both halves from the same object, so that the recorder and the navigator name the same method. Every round — the reporting round, which records call points, included — runs on preloaded files as on the target (ORD-own).",
 		NotCovered: "rows, callee lists",
 	}, propMeta{Technique: "call-graph effect reachability from speculative roots; provenance rule over the type-checked AST for qualified-name keys", LevelText: "all speculative roots and all qualified-name concatenations are enumerated and decided.", LevelNote: "speculative root = by-value Parser parameter that some caller fills with *ptr", DesignRef: "4 ORD-spec; 5 C24"})
 
